@@ -440,7 +440,7 @@ class Extractor:
                     out = out + OText.synthetic("\n" + header + " {\n" + ent.get("impl_prelude", ""))
                 else:
                     h = txt[impl0.start:impl0.body_open]
-                    out = out + self.phase1(OText.from_src(txt, impl0.start, impl0.body_open, fi), False, ent_rewrites) + OText.synthetic("{\n")
+                    out = out + self.phase1(OText.from_src(txt, impl0.start, impl0.body_open, fi), False, ent_rewrites) + OText.synthetic("{\n" + ent.get("impl_prelude", ""))
                 for fname in ent["fns"]:
                     cands = []
                     for im in found:
